@@ -98,6 +98,41 @@ void harness(void)
 	WITNESS("end");
 }
 
+/* the whole length range 3..60 on the SCALED window (hook LHASA_VERIF_RING_BUFFER_SIZE in lib/lh1_decoder.c: same ring
+ * arithmetic), against the sequential LZHUF definition: byte i is the window content `distance+1` behind the write
+ * position at the moment it is copied; concrete write position per variant (KPOS), distance and window arbitrary */
+#ifdef KPOS
+#define RINGS LHASA_VERIF_RING_BUFFER_SIZE
+void harness_seq(void)
+{
+	INPUT(u16, code);
+	INPUT(u32, dist);
+	static u8 out[OUTPUT_BUFFER_SIZE];
+	u8 r[RINGS];
+	LHALH1Decoder d0;
+	size_t n;
+	unsigned i, rp = KPOS, count;
+	ASSUME(code >= 256 && code < 314 && dist < 4096);
+	dec = d0;
+	dec.ringbuf_pos = KPOS;
+	for (i = 0; i < RINGS; ++i) r[i] = d0.ringbuf[i];
+	code_ok = 1; code_val = code; off_ok = 1; off_val = dist;
+	n = lha_lh1_read(&dec, out);
+	count = code - 253u;
+	CHECK(n == count, "C02: copy symbol c yields c - 256 + 3 bytes");
+	for (i = 0; i < 60; ++i) if (i < count) {
+		u8 b = r[(rp + RINGS - 1 - dist % RINGS) % RINGS];     /* DecodePosition()+1 behind the write position, modulo the window */
+		CHECK(out[i] == b, "C02: copied byte = window content `distance+1` behind the write position when it is copied (sequential LZHUF semantics)");
+		r[rp] = b; rp = (rp + 1) % RINGS;
+	}
+	CHECK(dec.ringbuf_pos == rp, "C02: write position advances by the copy length modulo the window size");
+	for (i = 0; i < RINGS; ++i) CHECK(dec.ringbuf[i] == r[i], "C02: window after a copy = window with the copied bytes appended");
+	if (count == 60 && dist == 0) WITNESS("longest copy repeating the last byte");
+	if (count == 60 && dist % RINGS == RINGS - 1) WITNESS("longest copy of the oldest bytes");
+	WITNESS("end");
+}
+#endif
+
 void harness_init(void)
 {
 	INPUT(u32, probe);
